@@ -29,6 +29,7 @@ import (
 	"runtime/debug"
 	"runtime/pprof"
 	"sort"
+	"strconv"
 	"strings"
 	"sync"
 	"time"
@@ -57,8 +58,14 @@ type raceWitness struct {
 }
 
 func main() {
-	// the race build pays dearly for every fresh page (shadow memory); memory is plentiful, GC less often
-	debug.SetGCPercent(400)
+	// the race build multiplies every heap page by its shadow memory: keep the heap small (the
+	// machine is shared with other checks; a 400% setting made this driver a 15 GB process)
+	debug.SetMemoryLimit(3 << 30)
+	gcp := 100
+	if v, err := strconv.Atoi(os.Getenv("C18_GOGC")); err == nil { // development aid
+		gcp = v
+	}
+	debug.SetGCPercent(gcp)
 	if p := os.Getenv("C18_CPUPROFILE"); p != "" { // development aid
 		if f, err := os.Create(p); err == nil {
 			_ = pprof.StartCPUProfile(f)
